@@ -21,8 +21,8 @@ META = dict(
     bounds=dict(
         quick="explicit psi/rho: all 3^n strings for n<=2, 8 strings at n=3, 2 strings with user-added symbolic unitaries; "
         "model paths: complex (n,h)=(2,2) and mixed (2,1,1) all 9 strings, positive (2,2) 4 strings; outcome batches = all basis rows plus a permuted batch with repeats",
-        thorough="explicit psi/rho: all 3^n strings for n<=3, all 81 strings at n=4 (rotate_psi / inner_prod; rotate_rho at n=4 on 12 strings); "
-        "model paths additionally complex (3,2) on 9 strings and mixed (2,2,2)",
+        thorough="explicit psi/rho: all 3^n strings for n<=3, all 81 strings at n=4 (rotate_psi / inner_prod; rotate_rho at n=4 on 12 strings), 36 strings at n=5 (psi paths); "
+        "model paths additionally complex (3,2) on 18 strings, mixed (2,2,2) and (3,1,1)",
     ),
     outside=["n >= 5", "dictionaries with non-2x2 blocks", "floating point"],
     stubs=["torch -> vf.symtorch", "numpy typed constructors in unitaries/cplx -> object arrays (vf.shim.NPProxy)"],
@@ -362,6 +362,14 @@ def jobs(tier):
         add("model-mixed-211", "model", kind="mixed", n=2, h=1, a=1, strings=all_strings(2))
         add("model-mixed-222", "model", kind="mixed", n=2, h=2, a=2, strings=["XY", "YY", "ZY", "YX"])
         add("model-positive-2x2", "model", kind="positive", n=2, h=2, a=None, strings=all_strings(2))
+        add("model-complex-3x2-b", "model", kind="complex", n=3, h=2, a=None, strings=["XXY", "YXY", "ZYZ", "XZX", "YYZ", "ZXZ", "XYX", "YZZ", "ZZX"])
+        add("model-mixed-311", "model", kind="mixed", n=3, h=1, a=1, strings=["XYZ", "YYX", "ZZY"])
+        s5 = all_strings(5)
+        import random as _r
+        _r.Random(5).shuffle(s5)
+        for k in range(0, 36, 6):
+            add("explicit-n5-psi-%d" % k, "explicit", n=5, strings=s5[k : k + 6], do_rho=False)
+        add("two-dictionaries-n3", "two_dictionaries", n=3, strings=["AXZ", "XAA", "ZXA"])
     return J
 
 
